@@ -646,7 +646,7 @@ def _prepare_inlining(ll, inline, passes, opt_args):
     passes run.  clang -O0 marks every function noinline; the attribute is dropped from the attribute groups and put back
     on the define line of every function the caller wants to KEEP as a function:
       inline=True            nothing is kept (everything defined in the unit is inlined where it is called)
-      inline=callable        keep(mangled_name, demangled_name, is_internal) -> True keeps the function
+      inline=callable        keep(mangled_name, demangled_name, is_internal, defined_in_main_file) -> True keeps it
     Inlining is semantics preserving; it only makes a rule see the same straight-line code whether a step is written in
     place or in a (new) helper function."""
     with open(ll) as fh:
@@ -654,15 +654,23 @@ def _prepare_inlining(ll, inline, passes, opt_args):
     txt = re.sub(r'(?m)^(attributes #\d+ = \{.*)$', lambda m: m.group(1).replace(' noinline', ''), txt)
     if callable(inline):
         lines = txt.split('\n')
+        # debug info: in which file is each function defined (main file of the unit or a header)?
+        difile = dict(re.findall(r'(?m)^!(\d+) = !DIFile\(filename: "([^"]*)"', txt))
+        dsub = dict(re.findall(r'(?m)^!(\d+) = distinct !DISubprogram\([^\n]*?file: !(\d+)', txt))
+        main = re.search(r'(?m)^source_filename = "([^"]*)"', txt)
+        main = os.path.basename(main.group(1)) if main else None
         defs = []
         for k, line in enumerate(lines):
             if line.startswith('define '):
                 m = re.search(r'@("(?:[^"\\]|\\.)*"|[\w.$]+)\(', line)
                 if m:
-                    defs.append((k, m.group(1).strip('"'), ' internal ' in line[:m.start()] or ' private ' in line[:m.start()]))
+                    dbg = re.search(r'!dbg !(\d+)', line)
+                    fn_file = difile.get(dsub.get(dbg.group(1), ''), '') if dbg else ''
+                    defs.append((k, m.group(1).strip('"'), ' internal ' in line[:m.start()] or ' private ' in line[:m.start()],
+                                 bool(main) and os.path.basename(fn_file) == main))
         dem = demangle([d[1] for d in defs])
-        for (k, name, internal), d in zip(defs, dem):
-            if inline(name, d, internal):
+        for (k, name, internal, in_main), d in zip(defs, dem):
+            if inline(name, d, internal, in_main):
                 line = lines[k]
                 m = re.search(r'\) (?=[^()]*\{\s*$)', line)     # after the parameter list
                 # function attributes may precede the group reference: "... @f(i32 %0) noinline #0 {"
@@ -679,13 +687,14 @@ def _prepare_inlining(ll, inline, passes, opt_args):
 
 
 def keep_all_but_new_helpers(known_internal=()):
-    """inline predicate: every function with external/linkonce linkage stays a function; internal (static / anonymous
-    namespace) functions stay only when a rule anchors on them (known_internal, by source name); any other internal
-    function - i.e. a helper introduced by refactoring - is folded into its callers"""
+    """inline predicate: every function with external/linkonce linkage stays a function, and so does every static
+    function that comes from a header (those are the library's API: sline_*, ring_*, argvc_*, hex2half ...).  A static
+    function defined in the unit's own source file stays only when a rule anchors on it (known_internal, by source
+    name); any other one - i.e. a file-local helper, typically introduced by refactoring - is folded into its callers"""
     known = set(known_internal)
 
-    def keep(name, dem, internal):
-        if not internal:
+    def keep(name, dem, internal, in_main):
+        if not internal or not in_main:
             return True
         base = dem.split('(')[0].split('::')[-1]
         return name in known or base in known
